@@ -93,7 +93,7 @@ func New(opt Options) (*World, error) {
 	pool.AddCert(root)
 	w.ServerTLSConf = &tls.Config{
 		Certificates: []tls.Certificate{{Certificate: chain.DER, PrivateKey: chain.Key}},
-		NextProtos:   []string{opt.ALPN},
+		NextProtos:   []string{opt.ALPN, "h3"}, // the browser parrots offer "h3" in their own ClientHello
 	}
 	w.ClientTLSConf = &tls.Config{ServerName: "localhost", RootCAs: pool, NextProtos: []string{opt.ALPN}}
 	if w.Wire != nil {
